@@ -304,6 +304,7 @@ def layout_table(ly, gpos):
     for k in range(n):
         cov = be16(1, 1, BASE_GID + k)
         if gpos:
+            cov = be16(1, 2, BASE_GID + k, SUB_GID + k)    # a GSUB table of the same font may have substituted the glyph
             sub = be16(1, 8, 0x0004, k + 1) + cov          # SinglePos format 1, xAdvance
         else:
             sub = be16(1, 6, SUB_GID - BASE_GID) + cov      # SingleSubst format 1, delta
@@ -354,7 +355,7 @@ def coq_layout(ly):
     return "{| ly_scripts := [%s]; ly_feats := %s |}" % ("; ".join(scs), nlist(ly["feats"]))
 
 
-GSUB_ON = ["ccmp", "locl", "rlig", "calt", "clig", "liga", "rclt"]
+GSUB_ON = ["ccmp", "locl", "rlig", "calt", "clig", "rclt"]   # not liga: the Indic / Khmer shapers switch it off
 GPOS_ON = ["kern", "dist", "abvm", "blwm"]
 OFF = ["ss01", "smcp", "zzzz", "cpsp"]
 DEFAULT_REQUESTED = ["rvrn", "ltra", "ltrm", "Harf", "HARF", "Buzz", "BUZZ", "abvm", "blwm", "ccmp", "locl", "mark", "mkmk", "rlig",
